@@ -134,10 +134,12 @@ pub fn documented_valid(proto: &[Rec], registered: &[&str]) -> Option<bool> {
             }
         }
     }
-    // duplicates: not specified
+    // a record name can be used once: the records are the children of an E57 Structure, which are
+    // identified by their element names (the reference implementation cannot even build or parse
+    // a Structure with two children of one name)
     for (i, a) in proto.iter().enumerate() {
         if proto[..i].iter().any(|b| b.ns == a.ns && b.name == a.name) {
-            return None;
+            return Some(false);
         }
     }
     Some(true)
@@ -199,6 +201,11 @@ fn invalid_reason(proto: &[Rec]) -> String {
             if max < min {
                 return "max-less-than-min".into();
             }
+        }
+    }
+    for (i, a) in proto.iter().enumerate() {
+        if proto[..i].iter().any(|b| b.ns == a.ns && b.name == a.name) {
+            return "record-name-twice".into();
         }
     }
     for r in proto {
